@@ -121,6 +121,7 @@ func loadEngine(repo string, patterns []string, overlay map[string][]byte, specD
 			}
 		}
 	}
+	theLib = e.lib
 	if len(e.loadErrors) > 0 {
 		return nil, fmt.Errorf("contract errors:\n%s", strings.Join(e.loadErrors, "\n"))
 	}
@@ -192,6 +193,12 @@ func (e *Engine) contractOf(fn *ssa.Function) *Contract {
 }
 
 func (e *Engine) inScope(fn *ssa.Function) bool {
+	if strings.HasPrefix(fn.Synthetic, "bound method wrapper") || strings.HasPrefix(fn.Synthetic, "wrapper for") {
+		if o := fn.Object(); o != nil && o.Pkg() != nil {
+			return strings.HasPrefix(o.Pkg().Path(), modulePath)
+		}
+		return true
+	}
 	p := fn
 	for p.Pkg == nil && p.Parent() != nil {
 		p = p.Parent()
